@@ -1,0 +1,9 @@
+//go:build !go1.20
+// +build !go1.20
+
+package cache
+
+// deleteSame removes the entry of the key, sync.Map has no compare-and-delete before go1.20.
+func (c *syncMap) deleteSame(key interface{}, _ *TraitEntry) {
+	c.data.Delete(key)
+}
